@@ -39,7 +39,11 @@ def render_lines(node, indent="", out=None, path=()):
             if n["form"] == "empty" and not n["items"]:
                 out.append(("%s<%s/>" % (indent, head), (p, "empty")))
             else:
-                out.append(("%s<%s>" % (indent, head), (p, "open")))
+                # a header token ending in '/' needs a blank before '>',
+                # or the line would be the empty form
+                out.append(("%s<%s%s>" % (indent, head,
+                                          " " if head.endswith("/") else ""),
+                            (p, "open")))
                 render_lines(n, indent + "  ", out, p)
                 out.append(("%s</%s>" % (indent, n["type"]), (p, "close")))
     return out
